@@ -127,6 +127,8 @@ impl Prop for C07 {
       if rope != text {
         return Err(format!("rope() renders to {rope:?}, source() is {text:?}"));
       }
+      // the rope a source hands out is a faithful rope of that text: every observer agrees (C16's model)
+      crate::props::c16::check_unary(&src.rope(), &text).map_err(|e| format!("rope() of the source: {e}"))?;
       let buf = src.buffer().to_vec();
       if buf != want_bytes {
         return Err(format!("buffer() {buf:?} differs from the reference bytes {want_bytes:?}"));
